@@ -1557,6 +1557,8 @@ def check_ellipsis(term):
 @functools.lru_cache(2**14)
 def parse_equation_ellipses(eq, shapes, tuples=False):
     """ """
+    # like numpy, ignore spaces
+    eq = eq.replace(" ", "")
     lhs, *rhs = eq.split("->")
     inputs = lhs.split(",")
 
